@@ -170,7 +170,30 @@ def main():
                     res.violate("corrupt-accepted", "a block with one altered byte is accepted as valid",
                                 {"block": raw.hex(), "pos": pos, "value": val}, "None/exception", show_block(d)[:100])
         res.count(("corrupt-all", raw), sample={"op": "all single-byte corruptions", "block_len": len(raw)})
-    res.evaluations += n_corrupt
+    # adversarial single-byte corruptions: the length byte is lowered to cut the block at n2 < n and the two data bytes at the cut
+    # happen to equal the 16-bit sum of header and data before the cut (the only way a shortened block could look consistent)
+    n_crafted = 0
+    for _ in range(400 if big else 120):
+        vals = gen_header(rng)
+        n = rng.range(3, 244)
+        n2 = rng.range(0, n - 2)
+        hdr = mk_header(vals)
+        prefix = rng.bytes(n2)
+        ssum = (sum(hdr.encode()) + sum(prefix)) & 0xFFFF
+        data = prefix + bytes([ssum >> 8, ssum & 0xFF]) + rng.bytes(n - n2 - 2)
+        raw = SecsIBlock(hdr, data).encode()
+        bad = bytes([10 + n2]) + raw[1:]
+        n_crafted += 1
+        try:
+            d = SecsIBlock.decode(bad)
+        except Exception:  # noqa: BLE001
+            d = None
+        if d is not None:
+            res.violate("corrupt-accepted", "a block whose length byte was altered is accepted as a (shorter) valid block",
+                        {"block": raw.hex(), "pos": 0, "value": 10 + n2}, "None/exception", show_block(d)[:100])
+    res.count(("crafted-length-cut", n_crafted), sample={"op": "length byte lowered, data at the cut = running checksum", "cases": n_crafted})
+    res.evaluations += n_corrupt + n_crafted
+    res.bump("corruptions", "crafted length-cut variants decoded", n_crafted)
     res.bump("corruptions", "single-byte variants decoded", n_corrupt)
     res.exhaustive_parts.append(f"every single-byte corruption (all offsets x 255 values) of {len(targets)} encoded blocks: {n_corrupt} decodes")
 
